@@ -212,3 +212,22 @@ def c15_outside_domain_layout_dependent(w, fns, **conds):
     if w['what'] != 'layout_dependent_outcome_kind' or k.get('in_domain') is not False or k.get('fn') not in fns:
         return False
     return all((k.get(a) in b) if isinstance(b, list) else (k.get(a) == b) for a, b in conds.items())
+
+
+@predicate
+def c15_narrow_float_row_dtype(w):
+    """axis-0 reduction of a multi-block frame whose row dtype is float16 / float32 (small ints beside a narrow float column):
+    int blocks are cast to the narrow float before reducing and intermediate results overflow / lose precision."""
+    k = w['klass']
+    return (w['what'] == _CELL and k.get('axis') == 0 and k.get('layout') == 'multi' and k.get('row_dtype') in ('float16', 'float32')
+            and k.get('line_kind') in ('i', 'u') and k.get('fn') in _REDUCE)
+
+
+@predicate
+def c15_real_inf_in_complex_row_dtype(w):
+    """a real column holding +-inf beside a complex column (row dtype complex128): the column is computed as complex,
+    where inf arithmetic yields nan parts (axis 0 of multi-block frames; cumsum / cumprod through Frame.values)."""
+    k = w['klass']
+    return (w['what'] == _CELL and k.get('axis') == 0 and k.get('layout') == 'multi' and k.get('row_kind') == 'c'
+            and k.get('line_kind') == 'f' and k.get('has_inf') is True
+            and k.get('fn') in ('sum', 'prod', 'mean', 'cumsum', 'cumprod'))
